@@ -39,8 +39,8 @@ def yMax : Nat := 12
 
 /-- One record: the helpers evaluated on the reported position `p`. -/
 def record (cx : Ctx) (m : String) (i off : Nat) (p : Cursor) : String :=
-  let a := atOff p
-  let b := beginOfLineOff p
+  let a := atOff cx p
+  let b := beginOfLineOff cx p
   let tail := match endOfLineOff cx p, lineAtOff cx p with
     | some e, some (lb, ll) => s!"{e}:{lb}:{ll}"
     | _, _ => "x:x:x"
